@@ -18,7 +18,7 @@ RULE = ('random interleaved histories (length 8-40) over 2-4 graph ids on both i
         'from GraphML/JSON text whose own node keys collide with stored ones, re-import under an existing id, direct import, '
         'delete graph, delete-then-reimport, clone, delete-all; the same NodeIDs are used in every graph on purpose. One '
         'evaluation = one history; distinct by op list; non-trivial if >=2 graphs were non-empty at some frame check')
-REQUIRED = ['frame-checks', 'frame-checks:2+graphs', 'op:import_string', 'op:reimport', 'op:import_direct', 'op:clone',
+REQUIRED = ['clone-with-exotic-values', 'frame-checks', 'frame-checks:2+graphs', 'op:import_string', 'op:reimport', 'op:import_direct', 'op:clone',
             'op:delete_graph', 'op:update_nodes_property', 'op:add_node', 'op:delete_node', 'clone-equal-checked',
             'import-content-checked', 'store:shared', 'store:disjoint', 'op:delete_then_reimport']
 ASSUMPTIONS = ['re-homing a graph by rewriting GraphID and merge_nodes are C14/C05 territory and not generated here',
@@ -26,6 +26,16 @@ ASSUMPTIONS = ['re-homing a graph by rewriting GraphID and merge_nodes are C14/C
                'content of the *target* is not judged there, only the other graphs']
 
 NIDS = ['n0', 'n1', 'n2', 'n3', 'n4']
+# values no text format can carry (carriage returns, control characters, containers): a store and an in-memory clone
+# must keep them all the same - they only ever arrive through the API, never through an import text
+EXOTIC = ['line1\r\nline2\r\n', 'cr\r', 'vt\x0bx', 'esc\x1b[0m', ['l1', 'l2'], {'k': 1, 'n': [1, 2]}, ('t', 1), 3.5, True, None]
+
+
+def api_value(rng):
+    if rng.random() < 0.3:
+        v = rng.choice(EXOTIC)
+        return v if v is not None else 'x'
+    return rawgraph.gen_value(rng)
 _cnt = [0]
 
 
@@ -60,15 +70,15 @@ def gen_op(rng, gids, live):
     if k < 30:
         return {'op': 'add_link', 'g': g, 'a': a, 'b': b, 'rel': rng.choice(rawgraph.RELS), 'props': rawgraph.gen_props(rng, 1)}
     if k < 36:
-        return {'op': 'update_node_property', 'g': g, 'nid': n, 'name': rng.choice(['p0', 'Name', 'Type']), 'val': rawgraph.gen_value(rng)}
+        return {'op': 'update_node_property', 'g': g, 'nid': n, 'name': rng.choice(['p0', 'Name', 'Type', 'BootScript']), 'val': api_value(rng)}
     if k < 40:
         return {'op': 'unset_node_property', 'g': g, 'nid': n, 'name': rng.choice(['p0', 'Name', 'X'])}
     if k < 44:
-        return {'op': 'update_node_properties', 'g': g, 'nid': n, 'props': {'p0': rawgraph.gen_value(rng), 'p1': rawgraph.gen_value(rng)}}
+        return {'op': 'update_node_properties', 'g': g, 'nid': n, 'props': {'p0': api_value(rng), 'p1': api_value(rng)}}
     if k < 50:
         return {'op': 'update_nodes_property', 'g': g, 'name': rng.choice(['p0', 'Name', 'Site', 'NodeMap']), 'val': rawgraph.gen_value(rng)}
     if k < 54:
-        return {'op': 'update_link_property', 'g': g, 'a': a, 'b': b, 'kind': rng.choice(rawgraph.RELS), 'name': 'p0', 'val': rawgraph.gen_value(rng)}
+        return {'op': 'update_link_property', 'g': g, 'a': a, 'b': b, 'kind': rng.choice(rawgraph.RELS), 'name': 'p0', 'val': api_value(rng)}
     if k < 57:
         return {'op': 'unset_link_property', 'g': g, 'a': a, 'b': b, 'kind': rng.choice(rawgraph.RELS), 'name': 'p0'}
     if k < 60:
@@ -197,6 +207,9 @@ def run_history(ctx, store, imp, cls, hist):
             skip = (store == 'disjoint' and op['to'] in used_ids)
             if not skip and before.get(op['g']) is not None:
                 ctx.count('clone-equal-checked')
+                if any(not isinstance(v, (str, int)) or (isinstance(v, str) and any(ord(c) < 32 and c not in '\t\n' for c in v))
+                       for sec in ('nodes', 'edges') for p in before[op['g']][sec].values() for v in p.values()):
+                    ctx.count('clone-with-exotic-values')
                 if not canon.typed_equal(after.get(op['to']), before.get(op['g'])):
                     ctx.violation('C04/clone-differs', 'a clone has the same content as its source under the new id',
                                   dict(w, diff=canon.diff(before.get(op['g']), after.get(op['to']))))
